@@ -42,6 +42,7 @@ class C13(Check):
         "labels; split: counts cell-wise additive). Cases with a pair within 1e-9 of a scale edge, a point within 1e-8 rad "
         "of a patch boundary or a redshift within 1e-9 of a bin edge are rejected and counted. "
         "non-trivial = correlation amplitudes finite and non-zero in >= 1 bin; distinct = (transformation, seed)"
+        ' Further classes: rotation putting the pole between two compact patches, exactly repeated positions, a 70 000-record weighted patch, chunked inputs, weights spanning 9 decades in splits.'
     )
     assumptions = [
         "data and random catalogs are different samples",
